@@ -45,15 +45,15 @@ var validRE = map[string]*regexp.Regexp{
 var canonRE = map[string]*regexp.Regexp{
 	"semver":    regexp.MustCompile(`^` + svNum + `\.` + svNum + `\.` + svNum + `(?:-` + cID + `(?:\.` + cID + `)*)?` + svBuild + `$`),
 	"nuget":     regexp.MustCompile(`^` + svNum + `(?:\.` + svNum + `){1,3}(?:-` + cID + `(?:\.` + cID + `)*)?` + svBuild + `$`),
-	"pypi":      regexp.MustCompile(`^(?:` + svNum + `!)?` + svNum + `(?:\.` + svNum + `)*(?:(?:a|b|rc)` + svNum + `)?(?:\.post` + svNum + `)?(?:\.dev` + svNum + `)?(?:\+` + pyLoc + `(?:\.` + pyLoc + `)*)?$`),
+	"pypi":      regexp.MustCompile(`^(?:` + svNum + `!)?` + svNum + `(?:\.` + svNum + `)*(?:(?i:a|b|rc)` + svNum + `)?(?:\.(?i:post)` + svNum + `)?(?:\.(?i:dev)` + svNum + `)?(?:\+` + pyLoc + `(?:\.` + pyLoc + `)*)?$`),
 	"maven":     regexp.MustCompile(`^[0-9]+(?:\.[0-9]+)*(?:-?[A-Za-z]+(?:-?[0-9]+)?|-[0-9]+)*$`),
-	"rubygems":  regexp.MustCompile(`^` + svNum + `(?:\.` + svNum + `){0,4}(?:\.[a-z]+(?:\.?` + svNum + `)?)?$`),
+	"rubygems":  regexp.MustCompile(`^` + svNum + `(?:\.` + svNum + `){0,4}(?:\.[A-Za-z]+(?:\.?` + svNum + `)?)?$`),
 	"packagist": regexp.MustCompile(`^` + svNum + `\.` + svNum + `\.` + svNum + `(?:-dev|-(?:alpha|beta|RC|rc|a|b|pl|p|patch)` + svNum + `)?$`),
 	"alpine":    regexp.MustCompile(`^` + svNum + `(?:\.` + svNum + `)*[a-z]?(?:_` + apkSuf + `(?:` + svNum + `)?)*(?:-r` + svNum + `)?$`),
 	"cran":      regexp.MustCompile(`^[0-9]{1,9}(?:[.-][0-9]{1,9})+$`),
 }
 
-const pyLoc = `(?:0|[1-9][0-9]*|[a-z0-9]*[a-z][a-z0-9]*)`
+const pyLoc = `(?:0|[1-9][0-9]*|[A-Za-z0-9]*[A-Za-z][A-Za-z0-9]*)`
 
 // bigOK lists the families whose references compare digit strings of any length.
 var bigOK = map[string]bool{"debian": true, "redhat": true, "alpine": true}
